@@ -192,7 +192,15 @@ class C11:
                     'center': [self_site(rng, pool, v)
                                for v in (1.0, 2.0, 10.0)]}
         if kind == 'sphere':
-            sc = b.emit('sphere', sphere_args(), store='sc')
+            sa_ = sphere_args()
+            if rng.random() < 0.25:
+                # per-channel dictionary at one site
+                key_ = rng.choice(['n', 'r'])
+                sa_[key_] = {'dict': [
+                    [ch_, self_site(rng, pool, fx_, positive=(key_ == 'r'))]
+                    for ch_, fx_ in (('red', 1.5 if key_ == 'n' else 0.5),
+                                     ('green', 1.6 if key_ == 'n' else 0.6))]}
+            sc = b.emit('sphere', sa_, store='sc')
         elif kind == 'layered':
             sc = b.emit('sphere', sphere_args(rng.randint(2, 3)), store='sc')
         else:
@@ -376,6 +384,13 @@ class C11:
             r, u1 = self._eval(ex, e['args']['real'], env)
             i, u2 = self._eval(ex, e['args']['imag'], env)
             return complex(r, i), u1 | u2
+        if isinstance(e, dict) and 'dict' in e and len(e) == 1:
+            out, used = {}, set()
+            for k_, a in e['dict']:
+                v, u = self._eval(ex, a, env)
+                out[k_] = v
+                used |= u
+            return out, used
         if isinstance(e, dict) and 'c' in e:
             return complex(*e['c']), set()
         if isinstance(e, dict) and 'npf' in e:
@@ -426,6 +441,9 @@ class C11:
             if isinstance(e, dict) and 'ref' in e:
                 if e['ref'] not in ids:
                     ids.append(e['ref'])
+            elif isinstance(e, dict) and 'dict' in e and len(e) == 1:
+                for _, v in e['dict']:
+                    walk(v)
             elif isinstance(e, dict):
                 for v in (e.get('args') if isinstance(e.get('args'), list)
                           else list((e.get('args') or {}).values())):
@@ -621,6 +639,13 @@ class C11:
                     if expr['ref'] in cands[i] and _close(value, vec[i]):
                         fixed.setdefault(expr['ref'], i)
                         return
+            elif isinstance(expr, dict) and 'dict' in expr and \
+                    len(expr) == 1:
+                if isinstance(value, dict) and '__dict__' in value:
+                    gd = dict(value['__dict__'])
+                    for k_, e_ in expr['dict']:
+                        if k_ in gd:
+                            pin(e_, gd[k_])
             elif isinstance(expr, list):
                 v = _plainval(value)
                 if isinstance(v, list) and len(v) == len(expr):
@@ -814,6 +839,12 @@ def _plainval(v):
 
 
 def _close(got, want):
+    if isinstance(want, dict):
+        if not (isinstance(got, dict) and '__dict__' in got):
+            return False
+        gd = dict(got['__dict__'])
+        return sorted(gd) == sorted(want) and all(
+            _close(gd[k], want[k]) for k in want)
     got = _plainval(got)
     if isinstance(want, list):
         if not isinstance(got, list) or len(got) != len(want):
